@@ -23,3 +23,36 @@ fn prim2_numeric_conversions() {
     let _ = (okr(q.as_u32()), okr(q.as_usize()), okr(q.as_integer()));
     std::mem::forget(p); std::mem::forget(q);
 }
+
+/// C04 (integers, booleans, null, references): the token Primitive::serialize writes for Integer(i) is an optional '-' followed by
+/// decimal digits whose value is i (what the number grammar of ISO 32000-1 §7.3.3 denotes); i ranges over a 16-bit window placed
+/// at a symbolic multiple of 2^16 is NOT attempted -- the whole i32 range is one symbolic value here.
+fn dec_value(t: &[u8; 12], len: usize) -> Option<i64> {
+    if len == 0 { return None; }
+    let neg = t[0] == b'-';
+    let mut i = if neg { 1 } else { 0 };
+    if i >= len { return None; }
+    let mut v: i64 = 0;
+    while i < len {
+        let c = t[i];
+        if c < b'0' || c > b'9' { return None; }
+        v = v * 10 + (c - b'0') as i64;
+        i += 1;
+    }
+    Some(if neg { -v } else { v })
+}
+#[kani::proof]
+#[kani::stub(std::fmt::format, nofmt)]
+fn prim2_integer_ser() {
+    let i: i32 = kani::any();
+    let p = Primitive::Integer(i);
+    let mut out: Vec<u8> = Vec::with_capacity(12);
+    let r = p.serialize(&mut out);
+    assert!(r.is_ok());
+    std::mem::forget(r);
+    assert!(out.len() >= 1 && out.len() <= 11);
+    let mut t = [0u8; 12];
+    let mut k = 0; while k < out.len() { t[k] = out[k]; k += 1; }
+    assert!(dec_value(&t, out.len()) == Some(i as i64));
+    std::mem::forget(out); std::mem::forget(p);
+}
